@@ -456,4 +456,360 @@ Proof.
     apply (Inv_r2l_lt _ _ _ HI _ _ H).
 Qed.
 
+(* label-only changes *)
+Lemma Inv_shape Pp Pa s s' :
+  Inv Pp Pa s -> l2r s' = l2r s -> r2l s' = r2l s -> inoL s' = inoL s -> inoR s' = inoR s ->
+  fkids (W s') = fkids (W s) -> wf_forest (W s') rootL ->
+  (forall l r, l2r s l = Some r ->
+     is_comment (ltag (flab (W s') l)) = is_comment (ltag (flab (W s) l))) ->
+  Inv Pp Pa s'.
+Proof.
+  intros HI E1 E2 E3 E4 Ek Hwf Hc.
+  constructor; rewrite ?E1, ?E2, ?E3, ?E4, ?Ek.
+  - exact Hwf.
+  - apply (I_bij _ _ _ HI).
+  - apply (I_root _ _ _ HI).
+  - intros l r H. eapply desc_ext; [|eapply I_aliveL; eauto]. intros p. rewrite Ek. reflexivity.
+  - apply (I_aliveR _ _ _ HI).
+  - intros l r H. rewrite (Hc l r H). eapply I_cmt; eauto.
+  - apply (I_Pp _ _ _ HI).
+  - apply (I_Pa _ _ _ HI).
+  - apply (I_vis _ _ _ HI).
+  - apply (I_par _ _ _ HI).
+  - apply (I_o1R _ _ _ HI).
+  - apply (I_o1L _ _ _ HI).
+  - apply (I_o2 _ _ _ HI).
+  - apply (I_o3 _ _ _ HI).
+Qed.
+
+(* y has been placed *)
+Lemma Inv_extend Pp Pa s y c :
+  Inv Pp Pa s -> desc R rootR y -> r2l s y = Some c ->
+  (forall xp, xp < fnext R -> In y (fkids R xp) ->
+     exists wp, r2l s xp = Some wp /\ In c (fkids (W s) wp)) ->
+  Inv (Pp ++ [y]) Pa s.
+Proof.
+  intros HI Hy Hc Hpar. constructor.
+  - apply (I_wf _ _ _ HI).
+  - apply (I_bij _ _ _ HI).
+  - apply (I_root _ _ _ HI).
+  - apply (I_aliveL _ _ _ HI).
+  - apply (I_aliveR _ _ _ HI).
+  - apply (I_cmt _ _ _ HI).
+  - intros x Hx. apply in_app_or in Hx as [Hx|[<-|[]]]; [eapply I_Pp; eauto|exact Hy].
+  - intros x Hx. apply in_or_app. left. apply (I_Pa _ _ _ HI). exact Hx.
+  - intros x Hx. apply in_app_or in Hx as [Hx|[<-|[]]]; [eapply I_vis; eauto|eauto].
+  - intros x xp w Hx Hxp Hin Hw. apply in_app_or in Hx as [Hx|[<-|[]]]; [eapply I_par; eauto|].
+    rewrite Hc in Hw. inversion Hw; subst. apply Hpar; assumption.
+  - intros v Hv. destruct (I_o1R _ _ _ HI v Hv) as (w & xp & wp & H1 & H2 & H3 & H4).
+    exists w, xp, wp. repeat split; try tauto. apply in_or_app. left; exact H3.
+  - apply (I_o1L _ _ _ HI).
+  - apply (I_o2 _ _ _ HI).
+  - apply (I_o3 _ _ _ HI).
+Qed.
+
+(* the children of y have been aligned *)
+Lemma Inv_aligned Pp Pa s y :
+  Inv Pp Pa s -> In y Pp ->
+  (forall w c z, r2l s y = Some w -> In c (fkids (W s) w) -> l2r s c = Some z ->
+                 In z (fkids R y) -> inoL s c = true) ->
+  Inv Pp (Pa ++ [y]) s.
+Proof.
+  intros HI Hy H3. constructor.
+  - apply (I_wf _ _ _ HI).
+  - apply (I_bij _ _ _ HI).
+  - apply (I_root _ _ _ HI).
+  - apply (I_aliveL _ _ _ HI).
+  - apply (I_aliveR _ _ _ HI).
+  - apply (I_cmt _ _ _ HI).
+  - apply (I_Pp _ _ _ HI).
+  - intros x Hx. apply in_app_or in Hx as [Hx|[<-|[]]]; [apply (I_Pa _ _ _ HI); exact Hx|exact Hy].
+  - apply (I_vis _ _ _ HI).
+  - apply (I_par _ _ _ HI).
+  - apply (I_o1R _ _ _ HI).
+  - apply (I_o1L _ _ _ HI).
+  - apply (I_o2 _ _ _ HI).
+  - intros x w c z Hx. apply in_app_or in Hx as [Hx|[<-|[]]]; [eapply I_o3; eauto|apply H3].
+Qed.
+
+Lemma map_eq_Some_In {A B} (f : A -> option B) : forall a b, map f a = map Some b ->
+  (forall x, In x a -> exists z, In z b /\ f x = Some z) /\
+  (forall z, In z b -> exists x, In x a /\ f x = Some z).
+Proof.
+  induction a as [|x a IH]; intros [|z b] H; cbn in H; try discriminate.
+  - split; intros ? [].
+  - inversion H as [[H1 H2]]. destruct (IH b H2) as [I1 I2]. split.
+    + intros x' [<-|Hx']; [exists z; split; [left; reflexivity|exact H1]|].
+      destruct (I1 x' Hx') as (z' & Hz' & E). exists z'. split; [right; exact Hz'|exact E].
+    + intros z' [<-|Hz']; [exists x; split; [left; reflexivity|exact H1]|].
+      destruct (I2 z' Hz') as (x' & Hx' & E). exists x'. split; [right; exact Hx'|exact E].
+Qed.
+
+(* marking an order-preserving set of matched children of (ln, rn) *)
+Lemma Inv_marks Pp Pa s s' ln rn SL SR :
+  Inv Pp Pa s -> In rn Pp -> r2l s rn = Some ln ->
+  W s' = W s -> l2r s' = l2r s -> r2l s' = r2l s ->
+  (forall u, inoL s' u = inoL s u || mem u SL) -> (forall v, inoR s' v = inoR s v || mem v SR) ->
+  map (l2r s) SL = map Some SR ->
+  filter (fun u => mem u SL) (fkids (W s) ln) = SL ->
+  filter (fun v => mem v SR) (fkids R rn) = SR ->
+  (forall v, In v (fkids R rn) -> inoR s v = false) ->
+  Inv Pp Pa s'.
+Proof.
+  intros HI Hrn Hln EW El Er HmL HmR Hmap HfL HfR Hnone.
+  destruct (Inv_r2l_lt _ _ _ HI _ _ Hln) as [Hlnlt Hrnlt].
+  destruct (map_eq_Some_In _ _ _ Hmap) as [MapL MapR].
+  assert (HSL : forall u, In u SL -> In u (fkids (W s) ln)).
+  { intros u Hu. rewrite <- HfL in Hu. apply filter_In in Hu. tauto. }
+  assert (HSR : forall v, In v SR -> In v (fkids R rn)).
+  { intros v Hv. rewrite <- HfR in Hv. apply filter_In in Hv. tauto. }
+  assert (HnoneL : forall u, In u (fkids (W s) ln) -> inoL s u = false).
+  { intros u Hu. destruct (inoL s u) eqn:E; [|reflexivity]. exfalso.
+    destruct (I_o1L _ _ _ HI u E) as (v & Hv & Ev).
+    destruct (I_o1R _ _ _ HI v Ev) as (wv & xp & wp & H1 & H2 & H3 & H4 & H5 & H6).
+    apply (I_bij _ _ _ HI) in Hv. rewrite Hv in H1. inversion H1; subst wv.
+    assert (wp = ln).
+    { apply (wf_uparent _ _ (I_wf _ _ _ HI) wp ln u); try assumption.
+      apply (Inv_r2l_lt _ _ _ HI _ _ H5). }
+    subst wp. assert (xp = rn) by (eapply (Inv_inj_r _ _ _ HI); eauto). subst xp.
+    rewrite (Hnone v H4) in Ev. discriminate. }
+  constructor; rewrite ?EW, ?El, ?Er.
+  - apply (I_wf _ _ _ HI).
+  - apply (I_bij _ _ _ HI).
+  - apply (I_root _ _ _ HI).
+  - apply (I_aliveL _ _ _ HI).
+  - apply (I_aliveR _ _ _ HI).
+  - apply (I_cmt _ _ _ HI).
+  - apply (I_Pp _ _ _ HI).
+  - apply (I_Pa _ _ _ HI).
+  - apply (I_vis _ _ _ HI).
+  - apply (I_par _ _ _ HI).
+  - intros v Hv. rewrite HmR in Hv. apply orb_true_iff in Hv as [Hv|Hv].
+    + destruct (I_o1R _ _ _ HI v Hv) as (wv & xp & wp & H1 & H2 & H3).
+      exists wv, xp, wp. rewrite HmL, H2. tauto.
+    + apply mem_In in Hv. destruct (MapR v Hv) as (u & Hu & E).
+      exists u, rn, ln. rewrite HmL. repeat split; auto.
+      * apply (I_bij _ _ _ HI). exact E.
+      * apply orb_true_iff. right. apply mem_In. exact Hu.
+  - intros u Hu. rewrite HmL in Hu. apply orb_true_iff in Hu as [Hu|Hu].
+    + destruct (I_o1L _ _ _ HI u Hu) as (v & H1 & H2). exists v. rewrite HmR, H2. auto.
+    + apply mem_In in Hu. destruct (MapL u Hu) as (v & Hv & E). exists v. split; [exact E|].
+      rewrite HmR. apply orb_true_iff. right. apply mem_In. exact Hv.
+  - intros w x Hw.
+    rewrite (filter_ext _ _ HmL), (filter_ext _ _ HmR).
+    destruct (Nat.eq_dec x rn) as [->|Hne].
+    + rewrite Hln in Hw. inversion Hw; subst w.
+      rewrite (filter_ext_in' _ (fun u => mem u SL)).
+      2:{ intros u Hu. rewrite (HnoneL u Hu). reflexivity. }
+      rewrite (filter_ext_in' (fun v => inoR s v || mem v SR) (fun v => mem v SR)).
+      2:{ intros v Hv. rewrite (Hnone v Hv). reflexivity. }
+      rewrite HfL, HfR. exact Hmap.
+    + destruct (Inv_r2l_lt _ _ _ HI _ _ Hw) as [Hwlt Hxlt].
+      rewrite (filter_ext_in' _ (inoL s)).
+      2:{ intros u Hu. replace (mem u SL) with false; [apply orb_false_r|]. symmetry. apply mem_false.
+          intros Hin. apply Hne. apply HSL in Hin.
+          assert (w = ln) by (apply (wf_uparent _ _ (I_wf _ _ _ HI) w ln u); assumption).
+          subst w. eapply (Inv_inj_r _ _ _ HI); eauto. }
+      rewrite (filter_ext_in' (fun v => inoR s v || mem v SR) (inoR s)).
+      2:{ intros v Hv. replace (mem v SR) with false; [apply orb_false_r|]. symmetry. apply mem_false.
+          intros Hin. apply Hne. apply HSR in Hin.
+          apply (wf_uparent R rootR HwfR x rn v); assumption. }
+      apply (I_o2 _ _ _ HI). exact Hw.
+  - intros x w c y Hx Hw Hc Hl Hy. rewrite HmL. rewrite (I_o3 _ _ _ HI x w c y); auto.
+Qed.
+
+(* the ancestors of the partner of a placed node are partners of its ancestors *)
+Definition P_closed (Pp : list id) : Prop :=
+  forall x, In x Pp -> x = rootR \/ exists xp, In xp Pp /\ In x (fkids R xp).
+
+Lemma anc_matched Pp Pa s a : Inv Pp Pa s -> P_closed Pp -> a < fnext (W s) ->
+  forall n, desc (W s) a n -> forall x, In x Pp -> r2l s x = Some n ->
+  exists x', r2l s x' = Some a /\ desc R x' x.
+Proof.
+  intros HI Hcl Ha n Hd. induction Hd as [|b c Hd IH Hin]; intros x Hx Hw.
+  - exists x. split; [exact Hw|constructor].
+  - assert (Hb : b < fnext (W s)) by (eapply desc_lt; [apply (I_wf _ _ _ HI)|exact Ha|exact Hd]).
+    destruct (Hcl x Hx) as [->|(xp & Hxp & Hin')].
+    + rewrite (I_root _ _ _ HI) in Hw. inversion Hw; subst c.
+      exfalso. eapply (wf_root_top _ _ (I_wf _ _ _ HI)); eauto.
+    + assert (Hxplt : xp < fnext R) by (apply R_lt; eapply I_Pp; eauto).
+      destruct (I_par _ _ _ HI x xp c Hx Hxplt Hin' Hw) as (wp & Hwp & Hcwp).
+      assert (wp = b).
+      { apply (wf_uparent _ _ (I_wf _ _ _ HI) wp b c); try assumption.
+        apply (Inv_r2l_lt _ _ _ HI _ _ Hwp). }
+      subst wp. destruct (IH xp Hxp Hwp) as (x' & H1 & H2).
+      exists x'. split; [exact H1|]. eapply desc_step; eauto.
+Qed.
+
+Lemma move_target_ok Pp Pa s x y w c :
+  Inv Pp Pa s -> P_closed Pp -> In x Pp -> In y (fkids R x) ->
+  r2l s x = Some w -> r2l s y = Some c -> ~ desc (W s) c w.
+Proof.
+  intros HI Hcl Hx Hyx Hw Hc Hd.
+  destruct (Inv_r2l_lt _ _ _ HI _ _ Hc) as [Hclt _].
+  destruct (anc_matched Pp Pa s c HI Hcl Hclt w Hd x Hx Hw) as (x' & H1 & H2).
+  assert (x' = y) by (eapply (Inv_inj_r _ _ _ HI); eauto). subst x'.
+  eapply (no_cycle R rootR x y HwfR); eauto. eapply I_Pp; eauto.
+Qed.
+
+Lemma target_elem Pp Pa s x y w :
+  Inv Pp Pa s -> r2l s x = Some w -> In y (fkids R x) -> is_comment (ltag (flab (W s) w)) = false.
+Proof.
+  intros HI Hw Hy. apply (I_bij _ _ _ HI) in Hw. rewrite (I_cmt _ _ _ HI _ _ Hw).
+  destruct (is_comment (ltag (flab R x))) eqn:E; [|reflexivity].
+  destruct (wf_comment R rootR HwfR x (Inv_lt_r _ _ _ HI _ _ Hw) E) as [Hk _].
+  rewrite Hk in Hy. contradiction.
+Qed.
+
+Lemma pos_ok_of_find Pp Pa s x y w s1 s2 c :
+  Inv Pp Pa s -> x < fnext R -> fkids R x = s1 ++ y :: s2 -> r2l s x = Some w ->
+  (r2l s y = Some c \/ (r2l s y = None /\ c = fnext (W s))) ->
+  exists pos, find_pos R s y = Some pos /\
+              pos_ok (inoL s) (inoR s) (l2r s) (fkids (W s) w) s1 c pos.
+Proof.
+  intros HI Hx Ek Hw Hc.
+  destruct (find_pos_spec _ _ _ HI x y w s1 s2 Hx Ek Hw) as (pos & Hf & Hp).
+  exists pos. split; [exact Hf|].
+  destruct Hp as [Hp|(v & a & b & sm & k1 & k2 & H1 & H2 & H3 & H4 & H5 & H6 & H7)]; [left; exact Hp|].
+  right. exists v, a, b, sm, k1, k2. repeat split; auto. rewrite H7. f_equal. f_equal.
+  destruct Hc as [->|[-> ->]]; [reflexivity|]. cbn [rm]. symmetry. apply remove_id_notin.
+  intros Hin. destruct (Inv_r2l_lt _ _ _ HI _ _ Hw) as [Hwlt _].
+  assert (fnext (W s) < fnext (W s)); [|lia].
+  apply (wf_kids_lt _ _ (I_wf _ _ _ HI) w _ Hwlt). rewrite H6. apply in_or_app. left; exact Hin.
+Qed.
+
+Lemma spec_apply_ins f t pos y :
+  alive f rootL t = true -> is_elem f t = true -> pos <= length (fkids f t) ->
+  spec_apply rootL f (fst (new_act R t pos (fnext f) y))
+  = Some (ins_f f (snd (new_act R t pos (fnext f) y)) t pos).
+Proof.
+  intros Ha He Hp. apply Nat.leb_le in Hp. unfold new_act.
+  destruct (ltag (labof R y)); cbn [fst snd spec_apply]; unfold kidsof;
+    rewrite Ha, He, Hp, Nat.eqb_refl; reflexivity.
+Qed.
+
+Lemma new_act_label t pos n y :
+  let l := snd (new_act R t pos n y) in
+  is_comment (ltag l) = is_comment (ltag (flab R y)) /\ lattrs l = [] /\ ltail l = None /\
+  (is_comment (ltag l) = false -> ltag l = ltag (flab R y) /\ ltext l = None) /\
+  (is_comment (ltag l) = true -> ltext l = ltext (flab R y)).
+Proof.
+  unfold new_act, labof. destruct (ltag (flab R y)) eqn:E; cbn; repeat split; auto; discriminate.
+Qed.
+
+Lemma new_act_not_ns t pos n y : is_ns_action (fst (new_act R t pos n y)) = false.
+Proof. unfold new_act. destruct (ltag (labof R y)); reflexivity. Qed.
+
+Lemma Inv_do_ins Pp Pa s x y w s1 s2 pos :
+  Inv Pp Pa s -> ~ In y Pp -> desc R rootR y -> In x Pp -> fkids R x = s1 ++ y :: s2 ->
+  r2l s x = Some w -> r2l s y = None ->
+  pos_ok (inoL s) (inoR s) (l2r s) (fkids (W s) w) s1 (fnext (W s)) pos ->
+  let s' := do_ins R s w pos y in
+  Inv (Pp ++ [y]) Pa s' /\ Step true rootL s s' /\ r2l s' y = Some (fnext (W s)).
+Proof.
+  intros HI HyP Hy HxP Ek Hw Hyn Hpos s'.
+  set (n := fnext (W s)) in *.
+  set (lab := snd (new_act R w pos n y)).
+  assert (Hxlt : x < fnext R) by (apply R_lt; eapply I_Pp; eauto).
+  destruct (Inv_r2l_lt _ _ _ HI _ _ Hw) as [Hwlt _].
+  assert (Hyx : In y (fkids R x)) by (rewrite Ek; apply in_or_app; right; left; reflexivity).
+  pose proof (I_wf _ _ _ HI) as Hwf.
+  assert (Hwalive : desc (W s) rootL w) by (eapply I_aliveL; [exact HI|apply (I_bij _ _ _ HI); exact Hw]).
+  assert (Hwe : is_comment (ltag (flab (W s) w)) = false) by (eapply target_elem; eauto).
+  destruct (new_act_label w pos n y) as (L1 & L2 & L3 & L4 & L5). fold lab in L1, L2, L3, L4, L5.
+  assert (HLc : inoL s n = false).
+  { destruct (inoL s n) eqn:E; [|reflexivity]. destruct (I_o1L _ _ _ HI n E) as (v & Hv & _).
+    unfold n in Hv. rewrite (Inv_fresh_unmatched _ _ _ HI) in Hv. discriminate. }
+  assert (HRy : inoR s y = false).
+  { destruct (inoR s y) eqn:E; [|reflexivity]. destruct (I_o1R _ _ _ HI y E) as (wv & ? & ? & Hv & _).
+    congruence. }
+  assert (Hnotin : forall p, p < n -> ~ In n (fkids (W s) p)).
+  { intros p Hp Hin. assert (n < n); [|lia]. apply (wf_kids_lt _ _ Hwf p n Hp Hin). }
+  assert (HW' : W s' = ins_f (W s) lab w pos) by reflexivity.
+  assert (Hwf' : wf_forest (W s') rootL).
+  { rewrite HW'. apply wf_ins; try assumption; [intros _; exact L2|rewrite L2; constructor]. }
+  assert (Hposle : pos <= length (fkids (W s) w)).
+  { destruct Hpos as [[_ ->]|(v & a & b & sm & k1 & k2 & _ & _ & _ & _ & _ & E6 & ->)]; [lia|].
+    rewrite E6, app_length. cbn. pose proof (remove_id_length n k1). lia. }
+  assert (HInv : Inv Pp Pa s').
+  { apply (Inv_place Pp Pa s s' x y w n pos s1 s2); try assumption.
+    - right. split; [reflexivity|]. split; [exact Hyn|]. rewrite HW'. apply fkids_ins_new. exact Hwlt.
+    - cbn. apply upd_same.
+    - cbn. apply upd_same.
+    - intros l Hl. cbn. apply upd_other. exact Hl.
+    - intros r Hr. cbn. apply upd_other. exact Hr.
+    - reflexivity.
+    - reflexivity.
+    - intros p Hp Hpw. rewrite HW'. rewrite fkids_ins_other; [|exact Hpw|unfold n in Hp; lia].
+      symmetry. apply remove_id_notin. apply Hnotin. exact Hp.
+    - rewrite HW'. rewrite fkids_ins_t by exact Hwlt. f_equal. symmetry. apply remove_id_notin.
+      apply Hnotin. exact Hwlt.
+    - intros m Hm. rewrite HW'. eapply desc_ins; eauto. apply (wf_root_lt _ _ Hwf).
+    - rewrite HW'. eapply desc_ins_new; eauto. apply (wf_root_lt _ _ Hwf).
+    - intros m Hm. rewrite HW', flab_ins. apply Nat.eqb_neq in Hm. fold n. rewrite Hm. reflexivity.
+    - rewrite HW', flab_ins. fold n. rewrite Nat.eqb_refl. exact L1. }
+  split; [|split].
+  - apply (Inv_extend Pp Pa s' y n); [exact HInv|exact Hy|cbn; apply upd_same|].
+    intros xp Hxp Hin. assert (xp = x) by (apply (wf_uparent R rootR HwfR xp x y); assumption). subst xp.
+    exists w. split.
+    + cbn. rewrite upd_other by (intros ->; contradiction). exact Hw.
+    + rewrite HW', fkids_ins_t by exact Hwlt. apply ins_at_In. left; reflexivity.
+  - apply (Step_one true rootL s s' (fst (new_act R w pos n y))); try reflexivity.
+    + rewrite HW'. unfold lab, n. apply spec_apply_ins; [|unfold is_elem, labof; rewrite Hwe; reflexivity|exact Hposle].
+      apply alive_iff; assumption.
+    + rewrite new_act_not_ns. cbn [orb]. apply negb_true_iff.
+      apply (same_doc_kids rootL (W s) (W s') w Hwf Hwalive).
+      rewrite HW', fkids_ins_t by exact Hwlt. intros E. apply (f_equal (@length _)) in E.
+      rewrite ins_at_length in E. lia.
+  - cbn. apply upd_same.
+Qed.
+
+Lemma Inv_do_move Pp Pa s x y w c s1 s2 pos :
+  Inv Pp Pa s -> ~ In y Pp -> In x Pp -> fkids R x = s1 ++ y :: s2 ->
+  r2l s x = Some w -> r2l s y = Some c -> inoL s c = false -> ~ desc (W s) c w ->
+  pos_ok (inoL s) (inoR s) (l2r s) (fkids (W s) w) s1 c pos ->
+  let s' := do_move s c w pos y in
+  Inv Pp Pa s' /\ spec_apply rootL (W s) (IMove c w pos) = Some (W s') /\
+  In c (fkids (W s') w) /\ pos <= length (remove_id c (fkids (W s) w)).
+Proof.
+  intros HI HyP HxP Ek Hw Hc HLc Hnd Hpos s'.
+  assert (Hxlt : x < fnext R) by (apply R_lt; eapply I_Pp; eauto).
+  destruct (Inv_r2l_lt _ _ _ HI _ _ Hw) as [Hwlt _].
+  destruct (Inv_r2l_lt _ _ _ HI _ _ Hc) as [Hclt Hylt].
+  assert (Hyx : In y (fkids R x)) by (rewrite Ek; apply in_or_app; right; left; reflexivity).
+  pose proof (I_wf _ _ _ HI) as Hwf.
+  assert (Hlc : l2r s c = Some y) by (apply (I_bij _ _ _ HI); exact Hc).
+  assert (Hwalive : desc (W s) rootL w) by (eapply I_aliveL; [exact HI|apply (I_bij _ _ _ HI); exact Hw]).
+  assert (Hcalive : desc (W s) rootL c) by (eapply I_aliveL; eauto).
+  assert (Hy : desc R rootR y) by (eapply I_aliveR; eauto).
+  assert (Hwe : is_comment (ltag (flab (W s) w)) = false) by (eapply target_elem; eauto).
+  assert (HRy : inoR s y = false).
+  { destruct (inoR s y) eqn:E; [|reflexivity]. destruct (I_o1R _ _ _ HI y E) as (wv & ? & ? & Hv & Hm & _).
+    congruence. }
+  assert (Hcroot : c <> rootL).
+  { intros ->. assert (y = rootR) by (eapply (Inv_inj_r _ _ _ HI); [exact Hc|apply (I_root _ _ _ HI)]).
+    subst y. eapply (wf_root_top R rootR HwfR); eauto. }
+  assert (HW' : W s' = move_f (W s) c w pos) by reflexivity.
+  assert (Hwf' : wf_forest (W s') rootL) by (apply wf_move; assumption).
+  assert (Hple : pos <= length (remove_id c (fkids (W s) w))).
+  { destruct Hpos as [[_ ->]|(v & a & b & sm & k1 & k2 & _ & _ & _ & _ & HLsm & E6 & ->)]; [lia|].
+    rewrite E6, remove_id_app, remove_id_cons_ne by (intros ->; congruence).
+    rewrite app_length. cbn. lia. }
+  split; [|split; [|split]].
+  - apply (Inv_place Pp Pa s s' x y w c pos s1 s2); try assumption; try reflexivity.
+    + left. exact Hlc.
+    + intros p Hp Hpw. rewrite HW'. apply (fkids_move_other _ rootL); assumption.
+    + rewrite HW'. apply (fkids_move_t _ rootL); assumption.
+    + intros m Hm. rewrite HW'. apply alive_move; assumption.
+    + rewrite HW'. apply alive_move; assumption.
+    + rewrite (I_cmt _ _ _ HI c y Hlc). reflexivity.
+  - cbn [spec_apply].
+    rewrite (proj2 (alive_iff _ _ c Hwf) Hcalive), (proj2 (alive_iff _ _ w Hwf) Hwalive).
+    replace (Nat.eqb c rootL) with false by (symmetry; apply Nat.eqb_neq; exact Hcroot).
+    unfold is_elem, labof. rewrite Hwe. rewrite subtree_not_in by exact Hnd.
+    unfold kidsof. apply Nat.leb_le in Hple. rewrite Hple. reflexivity.
+  - rewrite HW', (fkids_move_t _ rootL) by assumption. apply ins_at_In. left; reflexivity.
+  - exact Hple.
+Qed.
+
 End Inv.
